@@ -22,7 +22,8 @@ CLAIMED = {
              "(world_get), under the per-step run-level no-collision predicates. Batched application = flatten is C05. "
              "Raw level: the statement-by-statement transcription of set/delete end to end (HexRaw.rawOp: root fetch, _set/_delete over "
              "raw nodes and the database, root store) threaded over a whole history returns the executor's root hashes and a database "
-             "answering every lookup alike (Raw.history_is_world_run), so the above are theorems about that transcription. "
+             "answering every lookup alike (Raw.history_is_world_run), and the database-level get on that root and database returns the "
+             "map model's value for every key (Raw.history_get): C01 end to end over transcriptions one statement away from the code. "
              "Tie: get() after every operation of generated histories (4 configurations) equals the model's; the raw-level run is "
              "driven alongside fresh non-pruning tries (root after every op, final database, lookups).",
         technique="Lean 4 proof (induction over histories on a tree model) + correspondence check of model vs code",
